@@ -19,6 +19,14 @@ def outcome(fn, *a, **kw):
         return ("CountError", str(exc))
 
 
+def outcome_any(call):
+    """Like outcome(), for calls that must not raise anything at all."""
+    try:
+        return outcome(call)
+    except Exception as exc:  # noqa: BLE001 - the exception type is the observation
+        return (type(exc).__name__, str(exc))
+
+
 def bound_grid(k):
     vals = sorted({None, 0, k - 1, k, k + 1} - {-1}, key=lambda v: (-1 if v is None else v))
     return [(a, b) for a in vals for b in vals]
@@ -38,7 +46,7 @@ def judge(t, what, exp, got, idm, ctx):
     why = None
     if exp[0] == "ok":
         if got[0] != "ok":
-            why = "%s raised CountError although the count is within bounds" % what
+            why = "%s raised %s although %s" % (what, got[0], "the count is within bounds" if got[0] == "CountError" else "nothing may be raised")
         else:
             val = got[1]
             if exp[1] is None or isinstance(exp[1], int):
@@ -274,6 +282,36 @@ def check_attribute_kinds(t, shape, m):
         got = outcome(search.findall_by_attr, nodes[0], value, name=name)
         judge(t, "search.findall_by_attr(name=%r)" % name, ("ok", exp), got, idm, {"shape": shape, "node_class": "AnyNode with dotted attribute names"})
         t.c["attribute_kind_queries"] += 1
+    # the DEFAULT attribute ("name") is an attribute like any other: nodes without it are skipped (added after wave 10);
+    # and `value` may be None and may be passed by keyword, in every calling form of both modules
+    nodes = [anytree.AnyNode(**({"name": "x"} if i % 2 else {"flag": None})) for i in range(m.n)]
+    for i in range(m.n):
+        if m.par[i] is not None:
+            nodes[i].parent = nodes[m.par[i]]
+    idm = tree.IdMap(nodes)
+    for start in range(m.n):
+        pre = m.pre(start)
+        named, flagged = [v for v in pre if v % 2], [v for v in pre if not v % 2]
+        ctx = {"shape": shape, "start": start, "node_class": "AnyNode, odd nodes have name='x', even nodes flag=None and no name"}
+        for mod, modname in ((search, "search"), (cachedsearch, "cachedsearch")):
+            forms = [("(node, 'x')", lambda: mod.findall_by_attr(nodes[start], "x"), named),
+                     ("(node, value='x')", lambda: mod.findall_by_attr(nodes[start], value="x"), named),
+                     ("(node, 'x', name='name')", lambda: mod.findall_by_attr(nodes[start], "x", name="name"), named),
+                     ("(node, None) [default name]", lambda: mod.findall_by_attr(nodes[start], None), []),
+                     ("(node, value=None, name='flag')", lambda: mod.findall_by_attr(nodes[start], value=None, name="flag"), flagged),
+                     ("(node, None, 'flag')", lambda: mod.findall_by_attr(nodes[start], None, "flag"), flagged),
+                     ("(node=, value=None, name='flag', maxlevel=None)",
+                      lambda: mod.findall_by_attr(node=nodes[start], value=None, name="flag", maxlevel=None), flagged)]
+            for form, call, exp in forms:
+                judge(t, "%s.findall_by_attr%s" % (modname, form), ("ok", exp), outcome_any(call), idm, ctx)
+                t.c["attribute_kind_queries"] += 1
+            if len(named) <= 1:
+                judge(t, "%s.find_by_attr(node, value='x')" % modname, ("ok", named[0] if named else None),
+                      outcome_any(lambda: mod.find_by_attr(nodes[start], value="x")), idm, ctx)
+            if len(flagged) <= 1:
+                judge(t, "%s.find_by_attr(node, value=None, name='flag')" % modname, ("ok", flagged[0] if flagged else None),
+                      outcome_any(lambda: mod.find_by_attr(nodes[start], value=None, name="flag")), idm, ctx)
+            t.c["attribute_kind_queries"] += 2
     # attributes forwarded by a SymlinkNode count as attributes of the link
     target = anytree.Node("tgt", tag="x")
     nodes = [anytree.Node("n%d" % i) for i in range(m.n)]
